@@ -1204,6 +1204,36 @@ def reply_kids(world, reply_bytes):
     return out
 
 
+def nlist(xs):
+    xs = list(xs)
+    return "[" + ";".join(str(int(x)) for x in xs) + "]%N" if xs else "(@nil N)"
+
+
+def nnlist(rows):
+    rows = [list(r) for r in rows]
+    if not rows:
+        return "(@nil (list N))"
+    assert all(rows)
+    return "[" + ";".join("[" + ";".join(str(int(x)) for x in r) + "]" for r in rows) + "]%N"
+
+
+def cell_code(term):
+    """(LFactory n) -> 4n, (LResolved n false) -> 4n+1, (LResolved n true) -> 4n+2 (Model.v: cell_of_code)."""
+    parts = term.strip("()").split()
+    n = int(parts[1].replace("%N", ""))
+    if parts[0] == "LFactory":
+        return 4 * n
+    return 4 * n + (2 if parts[2] == "true" else 1)
+
+
+def reply_children_code(world, reply_bytes, tid, key_intern, href_seq):
+    rows = []
+    for n, (isroot, idv) in enumerate(reply_kids(world, reply_bytes)):
+        rows.append([(tid + 1) * 100 + n + 1, int(isroot), key_intern("#" + idv) if idv is not None else 0]
+                    + ([key_intern(h) for h in href_seq] if n == 0 else []))
+    return nnlist(rows)
+
+
 def reply_children(world, reply_bytes, tid, key_intern, href_seq):
     """The children of the reply's <Body> as the model's `child` records.  The
     href keys are listed in the order MultiRef.update looks them up (recorded
@@ -1382,15 +1412,14 @@ class Runner(object):
 def call_term(world, setup, tid, solos, sched, key_intern):
     c, kind, spec = setup.threads[tid]
     tr = sched.trackers[tid]
-    return "(mkcall %s %s %s %s %s %s)" % (
-        cN(c), cN(FRESH_BASE + tid), cN(tid + 1),
-        clist(tr.cells_in, "cloc"), clist(tr.cells_out, "cloc"),
-        reply_children(world, solos[tid]["reply"], tid, key_intern, solos[tid]["hrefs"]))
+    return "(CL %s %s %s %s)" % (
+        nlist([c, FRESH_BASE + tid, tid + 1]),
+        nlist(cell_code(x) for x in tr.cells_in), nlist(cell_code(x) for x in tr.cells_out),
+        reply_children_code(world, solos[tid]["reply"], tid, key_intern, solos[tid]["hrefs"]))
 
 
 def plan_term(sched):
-    return clist(["(%s, (%s, %s))" % (cnat(t), cnat(min(END, pc)), cnat(min(END, sub)))
-                  for t, (pc, sub) in sched.timeline], "nat * (nat * nat)")
+    return nnlist([t, min(END, pc), min(END, sub)] for t, (pc, sub) in sched.timeline)
 
 
 def run(ck):
@@ -1774,8 +1803,8 @@ def schedule_cases(ck, world, runner, rng, quick, memo_cells, suspicious_fp, fp_
     def record(setup, plan, cold, lines, outs, s, solos, totals, label):
         calls = clist([call_term(world, setup, t, solos, s, key_intern)
                        for t in range(len(setup.threads))], "call")
-        obs = clist(["(mkout %s %s)" % (cbool(o["req_own"]), cN(o["res"])) for o in outs], "outcome")
-        term = "(mksc %s %s %s)" % (calls, plan_term(s), obs)
+        obs = nnlist([int(o["req_own"]), o["res"]] for o in outs)
+        term = "(SC %s %s %s)" % (calls, plan_term(s), obs)
         if term in case_index:
             case_no = case_index[term]
         else:
